@@ -6,6 +6,9 @@ CHECKS = {
  'C03': dict(level='proof', technique='CBMC code contracts (DFCC): uniform codec contract enforced on every <T>::write, AbstractFile::write/skipp replaced by contracts',
    text="Every codec's write() is enforced against the uniform framing contract (header bytes == headerSize, bytes emitted == objectSize [+ objectSize%4 zero padding for the padding types observed in the reference logs], every length field == payload emitted, reads only inside the caller's containers, frame) for ALL scalar values, stale length fields and payload lengths up to the length field's range; codec bodies are loop free, so the proof is unbounded in payload length.",
    note=TB + "; payload CONTENT is not modelled at this level (count flavour)", ref='6/C03'),
+ 'C17': dict(level='proof', technique='CBMC: File::createObject against the format table over all 2^32 codes; constructor postconditions; constructor determinism as 2-safety (two nondeterministic memory backgrounds)',
+   text="File::createObject is checked against spec/type_table.json (built from two independent places in the repository, re-derived on every run) for the FULL 32-bit code domain in one loop-free query; every class constructor is checked to set a code the factory maps back to that class, the signature, the header version and - by self-composition over two arbitrary memory backgrounds - a determined value for every data member. Loop-free harnesses over full-domain symbolic inputs are complete proofs.",
+   note=TB + "; operator new assumed to succeed; 'written under that code / read back as that class' is carried by the round-trip obligations of C01", ref='6/C17'),
 }
 NA = {
 }
